@@ -3,23 +3,7 @@ import re
 from . import genrules, textrules, plumbing
 
 
-def run(chk):
-    genrules.r01_dual(chk)
-    genrules.r_eq(chk, rule_complete=None, rule_layout="R01-eq")
-    genrules.expansion_diffs(chk, "R01-shipped", lambda k: ("[stringify]" in k) or ("[parse]" in k) or k.startswith("impl PartialEq") or "Display" in k,
-                             "generated parse/stringify/PartialEq/Display items identical (canonical form) to the generator's output: the parser and the writer of one element are generated from the same DSL item, which is what makes them inverse to each other")
-    textrules.r01_esc(chk)
-    textrules.r01_fmt(chk)
-    textrules.r01_hex(chk)
-    textrules.r01_finite(chk)
-    textrules.r01_tokline(chk)
-    plumbing.r05_plumb(chk, rule="R01-plumb")
-    from . import c05, writertab
-    c05.r05_adjacent(chk, rule="R01-adjacent")
-    # a line offset taken from the wrong token is written as a different number of line breaks, which the next load measures again
-    c05.r05_token(chk, rule="R01-token")
-    writertab.compare(chk, "R01-writer", floor=48)
-    writertab.compare_ifdata(chk, "R01-ifdata-writer", floor=22)
+def r01_eq_ifdata(chk, rule="R01-eq", rule_count="R01-eq-ifdata"):
     # the hand-written equality of IF_DATA trees: every comparison of two payloads is an equality (a `!=` in one arm makes equal
     # values unequal and unequal values equal for that variant, so a reloaded file compares unequal)
     from . import mir
@@ -31,16 +15,47 @@ def run(chk):
             for bi, si, st in b.stmts():
                 if st["k"] == "assign" and st["rv"]["r"] == "bin" and st["rv"]["op"] in ("Ne", "Lt", "Gt", "Le", "Ge"):
                     neq += 1
-                    chk.add(Finding("R01-eq", "R01-eq::ifdata::%s::%s" % (mir.strip_generics(fid), st["rv"]["op"]), "%s compares two payloads with %s instead of equality" % (fid, st["rv"]["op"]), b.where(st["ln"])))
+                    chk.add(Finding(rule, rule + "::ifdata::%s::%s" % (mir.strip_generics(fid), st["rv"]["op"]), "%s compares two payloads with %s instead of equality" % (fid, st["rv"]["op"]), b.where(st["ln"])))
                 elif st["k"] == "assign" and st["rv"]["r"] == "bin" and st["rv"]["op"] == "Eq":
                     neq += 1
                 elif st["k"] == "assign" and st["rv"]["r"] == "un" and st["rv"]["op"] == "Not":
-                    chk.add(Finding("R01-eq", "R01-eq::ifdata::%s::Not" % mir.strip_generics(fid), "%s negates a comparison result" % fid, b.where(st["ln"])))
+                    chk.add(Finding(rule, rule + "::ifdata::%s::Not" % mir.strip_generics(fid), "%s negates a comparison result" % fid, b.where(st["ln"])))
             for bi, t in b.calls():
                 nm = mir.strip_generics((t.get("res") or "").lstrip("?"))
                 if nm.endswith("::ne"):
-                    chk.add(Finding("R01-eq", "R01-eq::ifdata::%s::ne" % mir.strip_generics(fid), "%s compares two payloads with != instead of ==" % fid, b.where(t["ln"])))
+                    chk.add(Finding(rule, rule + "::ifdata::%s::ne" % mir.strip_generics(fid), "%s compares two payloads with != instead of ==" % fid, b.where(t["ln"])))
                 elif nm.endswith("::eq"):
                     neq += 1
-    chk.rule("R01-eq-ifdata", "payload comparisons in the PartialEq impls of GenericIfData / GenericIfDataTaggedItem that are equalities", neq, floor=10)
+    chk.rule(rule_count, "payload comparisons in the PartialEq impls of GenericIfData / GenericIfDataTaggedItem that are equalities", neq, floor=10)
+
+
+def run(chk):
+    from .common import Finding
+    genrules.r01_dual(chk)
+    genrules.r_eq(chk, rule_complete=None, rule_layout="R01-eq")
+    genrules.expansion_diffs(chk, "R01-shipped", lambda k: bool(re.search(r"\[[^\]]*\b(stringify|parse)\b[^\]]*\]", k)) or k.startswith("impl PartialEq") or "Display" in k,
+                             "generated parse/stringify/PartialEq/Display items identical (canonical form) to the generator's output: the parser and the writer of one element are generated from the same DSL item, which is what makes them inverse to each other")
+    textrules.r01_esc(chk)
+    textrules.r01_fmt(chk)
+    textrules.r01_hex(chk)
+    textrules.r01_hexfloat(chk)
+    textrules.r01_finite(chk)
+    textrules.r01_tokline(chk)
+    plumbing.r05_plumb(chk, rule="R01-plumb")
+    from . import c05, writertab
+    c05.r05_adjacent(chk, rule="R01-adjacent")
+    # a line offset taken from the wrong token is written as a different number of line breaks, which the next load measures again
+    c05.r05_token(chk, rule="R01-token")
+    writertab.compare(chk, "R01-writer", floor=48)
+    writertab.compare_ifdata(chk, "R01-ifdata-writer", floor=22)
+    r01_eq_ifdata(chk)
+    # histories include merge_includes(): afterwards nothing below an IF_DATA may still carry an include origin, or the written text
+    # contains an /include directive that the reload cannot (or should not) resolve (rule R16-ifdata of C16)
+    from . import common, c16
+    sub = common.Check(chk.pid, chk.tier)
+    c16.run(sub)
+    for f in sub.findings:
+        if f.rule == "R16-ifdata":
+            chk.add(Finding("R01-includes", f.key.replace("R16-ifdata", "R01-includes"), f.msg, f.where, f.detail))
+    chk.rule("R01-includes", "GenericIfData variants handled by merge_includes (see R16-ifdata)", sum(r["instances"] for r in sub.rules if r["rule"] == "R16-ifdata"), floor=8)
     chk.assumptions += ["not decided: equality of the reloaded model and byte identity of the text for all inputs (runtime values)"]
